@@ -123,11 +123,11 @@ theorem decodeToStr_progress (L : c.Lawful) (cap : Nat) (hcap : 4 ≤ cap) (s : 
       simp only [mu, hc, if_true, List.length_drop] at this ⊢
       omega
     · have hc' : (c.decStep s b).consumed = false := by simpa using hc
-      have hi := L.unread_init s b hc'
+      have hi := L.unread_once s b hc'
       simp only [hc', Bool.false_eq_true, if_false] at h ⊢
       split
       · -- stopped between the two micro-steps
-        simp only [List.drop_zero, mu, hc', Bool.false_eq_true, if_false, hi, L.init_consumes b,
+        simp only [List.drop_zero, mu, hc', Bool.false_eq_true, if_false, hi,
           if_true]
         omega
       · rename_i hs2
